@@ -54,6 +54,22 @@ theorem forEach_spec (as : List α) :
 
 theorem void_spec (as : List α) : ((voidS (α := α)).run () as).ems = [] := StageSpec.void_out as
 
+/-- Seq then ToSeq is the identity (and Seq's channel has capacity and length `len xs`, closed) -/
+theorem toSeq_seq (xs : List α) : toSeq (seqChan xs) = xs ∧ (seqChan xs).cap = xs.length ∧ (seqChan xs).closed = true := by
+  refine ⟨?_, rfl, rfl⟩
+  suffices ∀ (n : Nat) (ys acc : List α), ys.length ≤ n →
+      toSeqLoop n ({ buf := ys, cap := xs.length, closed := true } : Chan α) acc = acc ++ ys by
+    simpa [toSeq, seqChan] using this xs.length xs [] (Nat.le_refl _)
+  intro n
+  induction n with
+  | zero => intro ys acc h; have : ys = [] := by cases ys <;> simp_all
+            subst this; simp [toSeqLoop]
+  | succ n ih =>
+    intro ys acc h
+    cases ys with
+    | nil => simp [toSeqLoop]
+    | cons y ys => simp only [toSeqLoop]; rw [ih ys (acc ++ [y]) (by simpa using h)]; simp
+
 /-! non-vacuity -/
 example : onCh 0 ((takeS (α := Nat)).run 2 [5, 6, 7]).ems = [5, 6] := by decide
 
